@@ -114,6 +114,13 @@ func main() {
 	defer r.Finish()
 	log.SetOutput(io.Discard)
 	if r.Replay != "" {
+		var ac aliasCase
+		r.LoadReplay(&ac)
+		if ac.Alias != [2]pair{} {
+			aliasOne(r, ac.Alias[0], ac.Alias[1])
+			r.Sample(ac)
+			return
+		}
 		var c pair
 		r.LoadReplay(&c)
 		if c.Pre != nil {
@@ -126,6 +133,7 @@ func main() {
 	// search.go: cheap legs in every tier, the full passes from thorough on, the longest windows with -search only.
 	// They run first: what they look for depends on the calls made before in this process, and a replay starts from none.
 	legs(r)
+	legs4(r)
 	if os.Getenv("HX_LEGS_ONLY") != "" { // development: the legs alone
 		return
 	}
